@@ -40,7 +40,7 @@ ASSUMPTIONS = ['template strings are ASCII (values and reserved names may contai
                'variable names are identifiers, "num" not bound by the caller, one format per variable per name, substitute string '
                'disjoint from the forbidden set, no forbidden white space together with a word limit (order of the two unspecified), '
                'fewer than 100 passes used (the bail-out bound is implementation-defined)']
-CASE_TIMEOUT = 10
+CASE_TIMEOUT = 2
 
 LEGACY = 1 if os.environ.get('VERIF_C15_LEGACY') else 0
 STRICT = bool(os.environ.get('VERIF_C15_STRICT'))
@@ -128,12 +128,13 @@ def rand_template(rng):
     t = {'static': [rand_name(rng) for _ in range(rng.choice([0, 0, 1, 1, 2, 3]))], 'wild': None}
     if rng.random() < 0.8:
         alts = [rand_name(rng, 1, 2) for _ in range(rng.choice([1, 2, 2, 3, 3, 4]))]
-        if rng.random() < 0.6:
+        if rng.random() < 0.85:
             alts[-1] = [['lit', rng.choice(['sect', 'file', 'n'])], ['var', 'num', rng.choice([None, '2', '4']), rng.randint(0, 2), 0]]
         t['wild'] = {'pre': rand_name(rng, 0, 1), 'alts': alts, 'post': rand_name(rng, 0, 1) if rng.random() < 0.5 else [],
                      'bstyle': rng.randint(0, 3)}
-    elif not t['static']:
-        t['static'] = [rand_name(rng)]
+    else:
+        # no bracket group: the last name is the wildcard; mostly give it a number so that it can go on
+        t['static'].append(rand_name(rng) + ([['var', 'num', rng.choice([None, '3']), 1, 0]] if rng.random() < 0.7 else []))
     return t
 
 
@@ -194,7 +195,7 @@ def small_scope(depth):
 
 def collision_case(rng):
     """few alternatives, few distinct values, reserved names on the numbered candidates: skips, several passes, bail-outs"""
-    tail = rng.choice(['sect$num', 'sect$num(2)', '$id-$num', 'n$num(1)', '$num', None, None])
+    tail = rng.choice(['sect$num', 'sect$num(2)', '$id-$num', 'n$num(1)', '$num', 'sect$num', 'n$num', 'sect$num(2)', None])
     heads = rng.sample(['$id', '$title', '$title(1)', '$id.$title', '$ref', 'x$id'], rng.randint(0, 2))
     alts = heads + ([tail] if tail else [])
     if not alts:
@@ -239,19 +240,40 @@ def malformed_case(rng):
     return rand_case(rng, spec)
 
 
+def _cap_bailouts(cases, limit):
+    """keep at most `limit` cases per stream whose history reaches the 100-pass bail-out (each costs the Model 101 passes and, should
+    a changed implementation loop forever, one CASE_TIMEOUT) -- the others are kept as they are"""
+    seen = {}
+    out = []
+    for name, c in cases:
+        t = in_scope(c)
+        if t is not None:
+            _, info = oracle(c, t)
+            if info['maxpasses'] >= 100:
+                seen[name] = seen.get(name, 0) + 1
+                if seen[name] > limit:
+                    continue
+        out.append((name, c))
+    return out
+
+
 def streams(rng, tier, boost):
+    return _cap_bailouts(_streams(rng, tier, boost), 150 if tier == 'quick' else 3000)
+
+
+def _streams(rng, tier, boost):
     out = []
     depth = 2 if tier == 'quick' else 3
     if boost > 1:
         depth = 3
     for c in small_scope(depth):
         out.append(('exhaustive', c))
-    n = (9000 if tier == 'quick' else 150000) * boost
+    n = (9000 if tier == 'quick' else 300000) * (boost if tier == 'quick' else 1)
     for _ in range(n):
         out.append(('structured', rand_case(rng)))
-    for _ in range((4000 if tier == 'quick' else 50000) * boost):
+    for _ in range((4000 if tier == 'quick' else 80000) * (boost if tier == 'quick' else 1)):
         out.append(('collision', collision_case(rng)))
-    for _ in range((3000 if tier == 'quick' else 40000) * boost):
+    for _ in range((3000 if tier == 'quick' else 60000) * (boost if tier == 'quick' else 1)):
         out.append(('malformed', malformed_case(rng)))
     return out
 
@@ -589,11 +611,41 @@ def cut(results):
     return out
 
 
+_HANG_CONFIRMATIONS = [0]
+
+
+def _confirm_hang(case, seconds=20):
+    """a per-case time-out under load is not yet a loop: re-run the first few 'hang' cases here with a generous alarm"""
+    import signal
+
+    class _T(Exception):
+        pass
+
+    def _h(signum, frame):
+        raise _T()
+    old = signal.signal(signal.SIGALRM, _h)
+    signal.alarm(seconds)
+    try:
+        return run_impl(case)
+    except _T:
+        return ['hang']
+    except BaseException as e:  # noqa
+        return ['raise', type(e).__name__, str(e)[:200]]
+    finally:
+        signal.alarm(0)
+        signal.signal(signal.SIGALRM, old)
+
+
 def judge(case, io, mo):
     if mo == [-4]:
         return None                      # a second '[' inside one name: not modelled, not in the documented grammar
     if io == mo:
         return None
+    if isinstance(io, list) and io[:1] == ['hang'] and _HANG_CONFIRMATIONS[0] < 3:
+        _HANG_CONFIRMATIONS[0] += 1
+        io = _confirm_hang(case)
+        if io == mo:
+            return None
     ir = results_of(io)
     mr = results_of(mo)
     if mr is None:
@@ -686,9 +738,28 @@ def tags(case, io):
 
 
 def shrink(case):
+    """smaller cases, most effective first (the driver tries the first 40 of each round)"""
     reqs = case['reqs']
+    spec = case['spec']
     for i in range(len(reqs) - 1, -1, -1):
         yield dict(case, reqs=reqs[:i] + reqs[i + 1:])
+    # tidy the template: blanks, brace styles, widths, single alternatives
+    for pat, rep in ((r'\$\{\s*(\w+)\s*\}', r'${\1}'), (r'\(\s*(\d+)\s*\)', r'(\1)'), (r'\s*,\s*', ','), (r'\[\s+', '['), (r'\s+\]', ']')):
+        s2 = re.sub(pat, rep, spec)
+        if s2 != spec:
+            yield dict(case, spec=s2)
+    names = spec.split(' ')
+    if len(names) > 1 and not re.search(r'\[[^\]]* ', spec) and not re.search(r'[({][^)}]* ', spec):
+        for i in range(len(names)):
+            yield dict(case, spec=' '.join(names[:i] + names[i + 1:]))
+    m = re.search(r'\[([^\]]*)\]', spec)
+    if m:
+        alts = m.group(1).split(',')
+        if len(alts) > 1:
+            for i in range(len(alts)):
+                yield dict(case, spec=spec[:m.start(1)] + ','.join(alts[:i] + alts[i + 1:]) + spec[m.end(1):])
+    for mm in re.finditer(r'\(\d+\)', spec):
+        yield dict(case, spec=spec[:mm.start()] + spec[mm.end():])
     for i, b in enumerate(reqs):
         for j in range(len(b)):
             yield dict(case, reqs=reqs[:i] + [b[:j] + b[j + 1:]] + reqs[i + 1:])
@@ -707,16 +778,9 @@ def shrink(case):
         yield dict(case, charsub=None)
     if case['ext']:
         yield dict(case, ext='')
-    # drop a name / a character of the template
-    names = case['spec'].split(' ')
-    if len(names) > 1:
-        for i in range(len(names)):
-            yield dict(case, spec=' '.join(names[:i] + names[i + 1:]))
-    spec = case['spec']
-    if len(spec) <= 40:
-        for i in range(len(spec)):
-            yield dict(case, spec=spec[:i] + spec[i + 1:])
     for i, b in enumerate(reqs):
         for j, (k, v) in enumerate(b):
             if len(v) > 1:
                 yield dict(case, reqs=reqs[:i] + [b[:j] + [[k, v[:1]]] + b[j + 1:]] + reqs[i + 1:])
+    for i in range(len(spec)):
+        yield dict(case, spec=spec[:i] + spec[i + 1:])
